@@ -470,7 +470,7 @@ class OraclesMixin:
         op = step["op"]
         fam = self.primary_family()
         prop = FAM_PROP.get(fam)
-        probes = self.refs_in_scope(m, limit=self.profile.get("max_probes", 8)) if self.fam & {"O6", "O9", "O16", "O10"} else []
+        probes = self.refs_in_scope(m, limit=self.profile.get("max_probes", 8)) if self.fam & {"O6", "O9", "O16", "O10", "O8"} else []
         obs = {}
         for rep in sorted(pt.real):
             pr = [r for r in probes if rep in self.refs[r]]
@@ -519,7 +519,11 @@ class OraclesMixin:
                     if fam in ("O8", "O10"):
                         orc = fam + ".decode"
                     self.violate(prop, orc, f"after `{op}` on {rep}: {why}", op=op, rep=rep, tail="/".join(m.verbs[-3:]), **feats)
-            obs[rep] = (vis_cols, [r[: len(vis_cols)] for r in rows])
+            if "O8" in self.fam and len(pt.real) == 2 and all(set(pr) <= set(self.refs[r]) for r in probes for pr in [sorted(pt.real)]):
+                # C08: hidden columns reached through references are compared across the replicas, too
+                obs[rep] = (cols, [tuple(r) for r in rows])
+            else:
+                obs[rep] = (vis_cols, [r[: len(vis_cols)] for r in rows])
             self.stats["exports"] += 1
             self.stats["oracle_evals"] += 1
             self.stats["cells_decoded"] += len(rows) * len(toks)
